@@ -253,6 +253,8 @@ def run_case(case: dict) -> CaseResult:
         env.tcp_script = [("refuse", D)] if op.get("tcp") == "refuse" else [("ok", 2 * D)]
         cli = make_client(env, address=op.get("address", "kitchen.local"))
         cli._params.zeroconf_manager = manager
+        n_tcp0 = len(env.tcp_calls)
+        exp_addrs, _ml, _ol, _oe = reference([op.get("address", "kitchen.local")], world.mdns, case.get("dns") or {})
         t = env.spawn(f"client{i}", cli.connect(login=True))
         if op.get("cancel_after") is not None:
             await asyncio.sleep(op["cancel_after"] / 64)
@@ -262,6 +264,16 @@ def run_case(case: dict) -> CaseResult:
         r = env.results.get(f"client{i}")
         if r and r[0] == "exc" and not isinstance(r[1], (APIConnectionError, asyncio.CancelledError)):
             viol.append(V(f"c20:connect:raised:{type(r[1]).__name__}", f"op {i}: {r[1]!r}"))
+        # "used verbatim": what reaches the socket layer is the resolved list itself -- address, port and, for IPv6,
+        # the numeric scope, in the resolver's order
+        for rec in env.tcp_calls[n_tcp0:n_tcp0 + 1]:
+            got_a = []
+            for ai in rec["addr_infos"]:
+                sa = ai[4]
+                got_a.append((ai[0], sa[0], sa[1], sa[3] if len(sa) > 3 else 0))
+            if got_a != [tuple(x) for x in exp_addrs]:
+                viol.append(V("c20:connect:addresses-handed-to-the-socket-layer", f"op {i} connect({op.get('address')}): socket layer got {got_a}, resolved {exp_addrs}"))
+            classes.add("connect_addresses_checked")
         await cli.disconnect(force=True)
         await asyncio.sleep(2 / 64)
         ledger(f"op {i} client connect ({op})", 1 if model["inst"] == "created" else 0)
@@ -360,7 +372,7 @@ def _case(draw, tier):
         elif r == 8:
             ops.append({"op": "supply", "kind": draw(st.sampled_from(["async", "sync"]))})
         elif draw(st.booleans()):
-            ops.append({"op": "client", "tcp": draw(st.sampled_from(["refuse", "ok"])), "address": draw(st.sampled_from(["kitchen.local", "kitchen", "bedroom.local", "dev.example.com"])),
+            ops.append({"op": "client", "tcp": draw(st.sampled_from(["refuse", "ok"])), "address": draw(st.sampled_from(["kitchen.local", "kitchen", "bedroom.local", "dev.example.com", "fe80::1%3", "fd00::7", "10.0.0.5", "fe80::aa%11"])),
                         "cancel_after": draw(st.sampled_from([None, None, 0, 1, 2, 64 * 10]))})
         else:
             ops.append({"op": "rl", "tcp": draw(st.sampled_from(["refuse", "ok"])), "pass_instance": draw(st.booleans()), "wait": draw(st.sampled_from([1, 3])), "address": draw(st.sampled_from(["kitchen.local", "kitchen", "10.0.0.5"]))})
@@ -374,6 +386,10 @@ def strategy(tier):
 
 
 def enumerated(tier):
+    # a full connect: the resolved addresses reach the socket layer verbatim (scope ids, order)
+    for addr in ("fe80::1%3", "fe80::aa%11", "fd00::7", "10.0.0.5", "kitchen.local", "kitchen", "dev.example.com"):
+        for tcp in ("ok", "refuse"):
+            yield {"manager": "empty", "mdns": {"kitchen": MDNS_OUT[2]}, "dns": {"dev.example.com": DNS_OUT[1], "kitchen.local": DNS_OUT[3], "kitchen": DNS_OUT[3]}, "ops": [{"op": "client", "tcp": tcp, "address": addr}]}
     # the library cannot create its own instance, later the application supplies one / creation works again
     for first in ({"op": "get", "ctor_fail": True}, {"op": "resolve", "hosts": ["kitchen.local"], "ctor_fail": True}, {"op": "resolve", "hosts": ["kitchen", "10.0.0.5", "dev.example.com"], "ctor_fail": True},
                   {"op": "get", "ctor_fail": "rt"}, {"op": "resolve", "hosts": ["kitchen.local"], "ctor_fail": "rt"}, {"op": "resolve", "hosts": ["kitchen", "10.0.0.5", "dev.example.com"], "ctor_fail": "rt"}):
